@@ -66,8 +66,8 @@ func (s *Solver) start() error {
 		s.send("(set-option :produce-models true)\n")
 		if s.TimeoutMs > 0 {
 			// no :timeout here: z3 4.8.12's timer threads can deadlock inside a multi-threaded host;
-			// a deterministic resource limit bounds each query instead (about 2.5k units per ms)
-			s.send(fmt.Sprintf("(set-option :rlimit %d)\n", s.TimeoutMs*2500))
+			// a deterministic resource limit bounds each query instead (budget = 25k units per configured ms; z3 5.1 counts faster than 4.8)
+			s.send(fmt.Sprintf("(set-option :rlimit %d)\n", s.TimeoutMs*25000))
 		}
 		return nil
 	case "z3", "":
